@@ -8,6 +8,15 @@ PROPS = ['C12', 'C05']
 D = 'src/decoder.rs'
 
 
+# mutation canaries (thorough tier): textual mutations of the EXTRACTED copy that must each fail an obligation of the named item
+MUTANTS = [
+    ('decoder::StripHeaderReader::strip_head_read', "if byte == b'\\\\r' \\{", "if byte == b'\\t' {"),
+    ('decoder::StripHeaderReader::strip_head_read', '&local_buf\\[offset\\.\\.read\\]', '&local_buf[0..rem]'),
+    ('decoder::strip_junk_header', '&slice\\[idx\\.\\.\\]', '&slice[idx + 1..]'),
+    ('decoder::is_junk_json', "byte == b'\\}'", "byte == b'{'"),
+]
+
+
 def build(u):
     u.use_overlay('u3_header.ctr')
     u.use('use std::io;')
